@@ -15,8 +15,8 @@ mutual
 /-- all leaves are testtools' own results (`TestResult`, `TextTestResult`) -/
 def ownLeaves : Shape → Bool
   | .tt _ | .text _ => true
-  | .sink _ | .tbt => false
-  | .etod c | .deco c | .tagger _ _ c | .tfr c | .e2s c | .ffbox _ _ c => ownLeaves c
+  | .sink _ | .fsink _ _ _ | .tbt => false
+  | .etod c | .deco c | .tagger _ _ c | .tfr c | .e2s c => ownLeaves c
   | .multi cs => ownLeavesL cs
 def ownLeavesL : List Shape → Bool
   | [] => true
@@ -26,7 +26,7 @@ end
 mutual
 def hasText : Shape → Bool
   | .text _ => true
-  | .etod c | .deco c | .tagger _ _ c | .tfr c | .e2s c | .ffbox _ _ c => hasText c
+  | .etod c | .deco c | .tagger _ _ c | .tfr c | .e2s c => hasText c
   | .multi cs => hasTextL cs
   | _ => false
 def hasTextL : List Shape → Bool
@@ -34,16 +34,31 @@ def hasTextL : List Shape → Bool
   | c :: cs => hasText c || hasTextL cs
 end
 
-/-- the object reported to is not a bare `TestResultDecorator` / `Tagger` on which `failfast` was assigned: nothing in a
-decorator acts on such an attribute, it only takes effect through the `ExtendedToOriginalDecorator` that wraps the
-decorator (the one `TestCase.run`, `MultiTestResult`, `ThreadsafeForwardingResult` build) — see "failfast set" below -/
-def rootPlain : Shape → Bool
-  | .ffbox _ _ _ => false
-  | _ => true
+mutual
+/-- the leaves are testtools' own results or, as in C08's stacks, recording results of the old flavours (2.6, 2.7,
+Twisted — with or without a `failfast` attribute assigned on them), which only ever sit behind the
+`ExtendedToOriginalDecorator` that supplies what they lack (`Shape.wf`).  (An extended-protocol foreign result, which
+may be reported to without an adapter, decides by itself what `failfast` means to it: not ours.) -/
+def adaptLeaves : Shape → Bool
+  | .tt _ | .text _ | .fsink _ _ _ => true
+  | .sink f => f != .ext
+  | .tbt => false
+  | .etod c | .deco c | .tagger _ _ c | .tfr c | .e2s c => adaptLeaves c
+  | .multi cs => adaptLeavesL cs
+def adaptLeavesL : List Shape → Bool
+  | [] => true
+  | c :: cs => adaptLeaves c && adaptLeavesL cs
+end
 
 /-- calls a caller may make; own leaves; a `TextTestResult` or a stream pipeline is started with `startTestRun` -/
 def inScope (i : Input) : Bool :=
-  i.hist.all Call.ok && ownLeaves i.shape && rootPlain i.shape &&
+  i.hist.all Call.ok && ownLeaves i.shape &&
+  (!(hasText i.shape || Spec.C17.Shape.hasE2s i.shape) || i.hist.head? == some .startTestRun)
+
+/-- the same with old-flavour results behind their adapters among the leaves: the scope of the fail-fast clauses that do
+not speak about the state of a single result -/
+def inScopeA (i : Input) : Bool :=
+  i.hist.all Call.ok && adaptLeaves i.shape &&
   (!(hasText i.shape || Spec.C17.Shape.hasE2s i.shape) || i.hist.head? == some .startTestRun)
 
 /-! ### verdict -/
@@ -94,7 +109,8 @@ mutual
 def leafParams : Shape → List Bool
   | .tt ff | .text ff => [ff]
   | .sink _ | .tbt => [false]
-  | .etod c | .deco c | .tagger _ _ c | .tfr c | .e2s c | .ffbox _ _ c => leafParams c
+  | .fsink _ b _ => [b]
+  | .etod c | .deco c | .tagger _ _ c | .tfr c | .e2s c => leafParams c
   | .multi cs => leafParamsL cs
 def leafParamsL : List Shape → List Bool
   | [] => []
@@ -102,29 +118,20 @@ def leafParamsL : List Shape → List Bool
 end
 
 /-! **What "failfast set" means.**  On a `TestResult` / `TextTestResult`: the constructor parameter (`leafParams`) or a
-later assignment.  On a `MultiTestResult` / `ExtendedToOriginalDecorator`: an assignment, which lands on the targets
-(`setFailfast` in the history).  On a `TestResultDecorator` / `Tagger` layer (`Shape.ffbox late b d`): the plain
-instance attribute `failfast = b`, assigned on the decorator object before (`late = false`) or after (`late = true`)
-the objects above it were built — the two are to behave alike.  The decorator does not act on the attribute; the
-`ExtendedToOriginalDecorator` directly above it (explicit, or the one a `MultiTestResult` /
-`ThreadsafeForwardingResult` builds around its target) reads it on every outcome, so *that* adapter is the fail-fast
-object: every result below it is to stop at the first error / failure / unexpected success (`guards`, `leafStops`),
-and `failfast` read through it (and through a `MultiTestResult` whose first target it is) is `b` (`ffRead`). -/
-mutual
-/-- the `failfast` instance attributes of decorator layers -/
-def ffParams : Shape → List Bool
-  | .ffbox _ b c => b :: ffParams c
-  | .tt _ | .text _ | .sink _ | .tbt => []
-  | .etod c | .deco c | .tagger _ _ c | .tfr c | .e2s c => ffParams c
-  | .multi cs => ffParamsL cs
-def ffParamsL : List Shape → List Bool
-  | [] => []
-  | c :: cs => ffParams c ++ ffParamsL cs
-end
-
+later assignment.  On a `MultiTestResult` / `ExtendedToOriginalDecorator` / `TestResultDecorator` / `Tagger`: an
+assignment, which lands on the target(s) (`setFailfast` in the history; a decorator's `failfast` is a property that
+forwards both ways).  On a recording result of an old flavour that has no `failfast` of its own
+(`Shape.fsink late b f`): the plain instance attribute `failfast = b`, assigned on the object before
+(`late = false`) or after (`late = true`) the objects above it were built — the two are to behave alike.  Such a
+result does not act on the attribute; the `ExtendedToOriginalDecorator` above it reads it on every outcome, so *that*
+adapter is the fail-fast object: `failfast` read through it (and through decorators / a `MultiTestResult` whose first
+target it is) is `b` (`ffRead`, clause `failfast-read`), and at the first error / failure / unexpected success its
+`shouldStop` becomes true (clause `failfast-stops`) — which means: the adapter calls `stop()` on the result, whose
+`shouldStop` it then reads; for a flavour without `stop` / `shouldStop` (Twisted) it is the adapter's own flag
+(`_shouldStop`) that is set and read (`etodStop`, `shouldStopOf`). -/
 /-- wrapping a result leaves its `failfast` alone -/
 def cFailfastKept (i : Input) (t : Trace) : Bool :=
-  !inScope i || t.leafFF == leafParams i.shape
+  !inScopeA i || t.leafFF == leafParams i.shape
 
 def isBadAdd : Call → Bool
   | .add k _ _ => Kind.bad k
@@ -137,7 +144,7 @@ def ffStops : Option Bool → List Call → List Obs → Bool
   | _, _, _ => false
 
 def cFailfastStops (i : Input) (t : Trace) : Bool :=
-  !inScope i || ffStops t.ff0 i.hist t.obs
+  !inScopeA i || ffStops t.ff0 i.hist t.obs
 
 /-- once set, `shouldStop` stays set until the next `startTestRun` -/
 def sticky : Bool → List Call → List Obs → Bool
@@ -146,11 +153,10 @@ def sticky : Bool → List Call → List Obs → Bool
   | _, _, _ => false
 
 def cSticky (i : Input) (t : Trace) : Bool :=
-  !inScope i || sticky false i.hist t.obs
+  !inScopeA i || sticky false i.hist t.obs
 
 /-- not earlier: `shouldStop` only after a `stop()`, or after an error / failure / unexpected success when
-fail-fast was set somewhere (on a leaf before wrapping, on a decorator layer, or by an assignment), since the last
-`startTestRun` -/
+fail-fast was set somewhere (on a leaf before wrapping, or by an assignment), since the last `startTestRun` -/
 def notEarlier (ffEver : Bool) (reason : Bool) : List Call → List Obs → Bool
   | [], [] => true
   | c :: h, o :: os =>
@@ -163,7 +169,7 @@ def notEarlier (ffEver : Bool) (reason : Bool) : List Call → List Obs → Bool
   | _, _ => false
 
 def cNotEarlier (i : Input) (t : Trace) : Bool :=
-  !inScope i || notEarlier ((leafParams i.shape ++ ffParams i.shape).any id) false i.hist t.obs
+  !inScope i || notEarlier ((leafParams i.shape).any id) false i.hist t.obs
 
 /-- `stop()` reaches every underlying result -/
 def stopReaches : List Call → List Obs → Bool
@@ -176,13 +182,14 @@ def cStopReaches (i : Input) (t : Trace) : Bool :=
 
 /-! ### every result by itself: its own fail-fast setting survives whatever wrappers do -/
 /- `failfast` as a freshly built object reads it: a `MultiTestResult` reads its first target's, an
-`ExtendedToOriginalDecorator` its target's (its own flag, initially false, if the target has none), a decorator
-layer with the instance attribute has that -/
+`ExtendedToOriginalDecorator` its target's (its own flag, initially false, if the target has none), a
+`TestResultDecorator` / `Tagger` its target's, an old-flavour result the attribute assigned on it (if any) -/
 mutual
 def ffRead : Shape → Bool
   | .tt ff | .text ff => ff
   | .etod c => (caps c).failfast && ffRead c
-  | .ffbox _ b _ => b
+  | .deco c | .tagger _ _ c => ffRead c
+  | .fsink _ b _ => b
   | .multi ds => ffReadHead ds
   | _ => false
 def ffReadHead : List Shape → Bool
@@ -194,9 +201,9 @@ end
 which reaches everything below it, on a bad outcome) -/
 mutual
 def guards : Bool → Shape → List Bool
-  | g, .tt _ | g, .text _ | g, .sink _ | g, .tbt => [g]
+  | g, .tt _ | g, .text _ | g, .sink _ | g, .fsink _ _ _ | g, .tbt => [g]
   | g, .etod c => guards (g || ffRead (.etod c)) c
-  | g, .deco c | g, .tagger _ _ c | g, .tfr c | g, .e2s c | g, .ffbox _ _ c => guards g c
+  | g, .deco c | g, .tagger _ _ c | g, .tfr c | g, .e2s c => guards g c
   | g, .multi cs => guardsL g cs
 def guardsL : Bool → List Shape → List Bool
   | _, [] => []
@@ -204,6 +211,14 @@ def guardsL : Bool → List Shape → List Bool
 end
 
 def noAssign (h : List Call) : Bool := h.all fun | .setFailfast _ => false | _ => true
+
+/-- `failfast` read on the object reported to: as set — before or after wrapping — on what it reads through to -/
+def ffRead? (s : Shape) : Option Bool := if (caps s).failfast then some (ffRead s) else none
+
+/-- without assignments through the wrappers, `failfast` reads the same from construction on and after every call -/
+def cFailfastRead (i : Input) (t : Trace) : Bool :=
+  !(inScopeA i && i.shape.noStream && noAssign i.hist) ||
+  (t.ff0 == ffRead? i.shape && t.obs.all (·.ff == ffRead? i.shape))
 
 /-- no assignment of `failfast` through a wrapper: every result keeps the setting it was built with, after every call -/
 def cLeafKept (i : Input) (t : Trace) : Bool :=
@@ -260,10 +275,33 @@ def cExit (i : Input) (t : Trace) : Bool :=
       code == (if ks.any Kind.bad then 1 else 0) && out == .running :: (tallyOf {} 0 (dispatched ff ks)).summary
   | _, _ => false
 
+/-! ### known finding -/
+mutual
+/-- a `MultiTestResult` with a target that has no `shouldStop` (Twisted flavour).  `MultiTestResult.shouldStop` asks every
+target adapter through `__getattr__("shouldStop")` — calling the fallback hook directly, which skips the
+`ExtendedToOriginalDecorator`'s own `shouldStop` property (the one that falls back to the adapter's flag) and goes
+straight to the decorated result: reading `shouldStop` raises `AttributeError` (and, read through a further
+`ExtendedToOriginalDecorator`, whose `getattr` default swallows that error, reads false after `stop()`).  The model has
+the intended reading (the adapter's property); the code cannot be followed there. -/
+def multiOverStopless : Shape → Bool
+  | .multi cs => stoplessTarget cs || multiOverStoplessL cs
+  | .etod c | .deco c | .tagger _ _ c | .tfr c | .e2s c => multiOverStopless c
+  | _ => false
+def multiOverStoplessL : List Shape → Bool
+  | [] => false
+  | c :: cs => multiOverStopless c || multiOverStoplessL cs
+def stoplessTarget : List Shape → Bool
+  | [] => false
+  | .etod c :: cs => !(caps c).shouldStop || stoplessTarget cs
+  | _ :: cs => stoplessTarget cs
+end
+
+def multiNoShouldStop (i : Input) : Bool := multiOverStopless i.shape
+
 def clauses : List (String × (Input → Trace → Bool)) :=
   [("verdict", cVerdict), ("text-summary", cText), ("failfast-kept", cFailfastKept),
    ("failfast-stops", cFailfastStops), ("stop-sticky", cSticky), ("not-earlier", cNotEarlier),
-   ("stop-reaches", cStopReaches), ("leaf-failfast-kept", cLeafKept), ("leaf-stops", cLeafStops),
+   ("stop-reaches", cStopReaches), ("failfast-read", cFailfastRead), ("leaf-failfast-kept", cLeafKept), ("leaf-stops", cLeafStops),
    ("exit-status", cExit)]
 
 def holds (i : Input) (t : Trace) : Bool := clauses.all fun c => c.2 i t
